@@ -557,6 +557,11 @@ def reference_value(case, prev=None, chan=None):
         r = (args[0] + 2 * args[1] + 3 * args[2] + 5 * z + 7) % 1000003
         memo[(lv, v)] = r
         return r
+    if chan is not None:
+        # every node of the target's closure has run and fetched, also those that only feed an input through a
+        # connection that is not the first one of that input
+        for v in sorted(_closure(case["levels"][0], case["target"]) or []):
+            val(0, v)
     return val(0, case["target"])
 
 
@@ -1063,7 +1068,7 @@ def running_variants(rng, levels, target, parents):
 
 def generate(ctx):
     rng = ctx.rng
-    n_graphs = ctx.n(66, 600)
+    n_graphs = ctx.n(66, 450)
     thorough = not ctx.quick
     cases, seen = [], set()
     for _ in range(n_graphs):
